@@ -773,13 +773,22 @@ func SexpToGoStructs(
 		// ugorji msgpack will give us int64 not int,
 		// so match that to make the decodings comparable.
 		//vv("*SexpInt code src.Val='%#v'.. targVa.Elem()='%#v'/Type: %T", src.Val, targVa.Elem().Interface(), targVa.Elem().Interface())
-		switch targVa.Elem().Interface().(type) {
-		case float64:
-			targVa.Elem().SetFloat(float64(src.Val))
-		case int64:
-			targVa.Elem().SetInt(int64(src.Val))
+		el := targVa.Elem()
+		switch el.Kind() {
+		case reflect.Float32, reflect.Float64:
+			el.SetFloat(float64(src.Val))
+		case reflect.Int, reflect.Int8, reflect.Int16, reflect.Int32, reflect.Int64:
+			if el.OverflowInt(src.Val) {
+				return nil, fmt.Errorf("integer %d does not fit into a field of type %v", src.Val, el.Type())
+			}
+			el.SetInt(src.Val)
+		case reflect.Uint, reflect.Uint8, reflect.Uint16, reflect.Uint32, reflect.Uint64, reflect.Uintptr:
+			if src.Val < 0 || el.OverflowUint(uint64(src.Val)) {
+				return nil, fmt.Errorf("integer %d does not fit into a field of type %v", src.Val, el.Type())
+			}
+			el.SetUint(uint64(src.Val))
 		default:
-			targVa.Elem().SetInt(int64(src.Val))
+			return nil, fmt.Errorf("cannot store the integer %d into a field of type %v", src.Val, el.Type())
 		}
 	case *SexpStr:
 		targVa.Elem().SetString(src.S)
